@@ -87,15 +87,16 @@ def run(ctx):
         cases = [p for t, p in res[2 * (npam + i) + 1].prints if t == "CASE"]
         for j, c in enumerate(cases):
             runs += hybrid_runs(c, j)
-    if ctx.tier == "thorough":
-        rng = np.random.RandomState(ctx.seed + 9)
-        runs += ce.random_runs(rng, 12000, ["kmedoids", "hybrid"], max_n=30)
+    rng = np.random.RandomState(ctx.seed + 9)
+    extra = ce.random_runs(rng, 12000 if ctx.tier == "thorough" else 600, ["kmedoids", "hybrid"],
+                           max_n=30 if ctx.tier == "thorough" else 14)
     ctx.exhaustive = False
     if ctx.tier == "quick" and len(runs) > 12000:      # deterministic, seed-rotated subsample
         stride = -(-len(runs) // 12000)
         ctx.notes["runs_enumerated"] = len(runs)
         runs = runs[ctx.seed % stride::stride]
         ctx.exhaustive = False
+    runs += extra         # seeded random data sets beyond the enumerated scope
     traces = core.pmap(cc.record, runs, chunk=100)
     coarse = 0
     for tr in traces:
